@@ -95,6 +95,7 @@ def run_script(drv, cmds, metas, spool_parent, keep_spool=False, mode='root', pr
             e['status'] = int(body[9:12]) if body.startswith('HTTP/1.1 ') else 0
             b = body.split('\r\n\r\n', 1)[1] if '\r\n\r\n' in body else ''
             e['uids'] = sorted(set(re.findall(r'^UID:([^\n\r]*)', b, re.M))) if 'BEGIN:V' in b else sorted(l.split('\t')[0] for l in b.split('\n') if '\t' in l)
+            e['starts'] = sorted(set((u, d) for u, d in re.findall(r'^UID:([^\n\r]*)\r?\n(?:(?!END:VEVENT)[^\n]*\n)*?DTSTART:([^\n\r]*)', b, re.M))) if 'BEGIN:V' in b else []
             e['complete'] = (b == '' or not ('BEGIN:VCALENDAR' in b) or b.rstrip().endswith('END:VCALENDAR'))
             e.pop('reply', None)
         elif e['e'] == 'Spawn':
@@ -229,16 +230,20 @@ def colliding_uids(drv, wd, n=150000):
     return res
 
 
-def map_script(rnd, uidpool, peers=(1000, 1001, 1002, 0, 4242), nreq=8):
-    """requests only, nothing ever comes due: the queue as a map"""
+def map_script(rnd, uidpool, peers=(1000, 1001, 1002, 0, 4242), nreq=8, listy=False):
+    """requests only, nothing ever comes due: the queue as a map.  listy: long histories in which every other request is a listing
+    (GET /queue brings the queue file up to date on demand - the listing must show the tasks as last accepted, not as last saved)"""
     cmds, metas = [], {}
     FAR = 5000
     for _ in range(nreq):
         x = rnd.random(); p = rnd.choice(peers)
+        if listy: x = x * 0.75 / 0.5 if x < 0.5 else (0.86 + (x - 0.5) * 0.2 if x < 0.95 else 0.97)     # 33 % adds, 17 % cancels, 45 % /queue, 5 % other
+        if listy and rnd.random() < 0.08: cmds.append('K')                                             # the minutely checkpoint timer comes due now and then
         if x < 0.55:
             items = []
             for _ in range(rnd.choice([1, 1, 1, 2, 3])):
                 it = {'kind': 'add', 'uid': rnd.choice(uidpool), 'occ': sorted(set(FAR + rnd.randint(0, 50) for _ in range(rnd.randint(1, 3)))), 'maxsim': 0, 'peer': p}
+                it['start'] = secs(min(it['occ']))
                 y = rnd.random()
                 if y < 0.15: it['owner_uid'] = rnd.choice([1000, 1001, 1002, 4242])
                 elif y < 0.3: it['owner_name'] = rnd.choice(['alice', 'bob', 'carol', 'nobody-such'])
